@@ -116,11 +116,15 @@ fn parse(line: &str) -> Option<Script> {
         };
         let kind = match b[2] {
             b'b' => Kind::B,
+            b'h' => Kind::H,
+            b'w' => Kind::W,
+            b'd' => Kind::D,
+            b't' => Kind::T,
             b'r' => Kind::R,
             b's' => Kind::S,
             _ => return None,
         };
-        if fut && kind == Kind::B {
+        if fut && !kind.lowers() {
             return None;
         }
         let cx = (b[3] as char).to_digit(10).filter(|d| *d <= 4)?;
@@ -530,7 +534,7 @@ impl<T: Payload> ChanDyn for Chan<T> {
                 self.kept = None;
                 ev(&format!("{}{c}:{first}:{n}", if all { "iwa" } else { "iw" }));
                 let (_, v) = self.fresh(n);
-                if T::KIND != Kind::B && n > 0 {
+                if T::KIND.lowers() && n > 0 {
                     payload::expect_slab(c, first);
                 }
                 let w = self.writer();
@@ -545,7 +549,7 @@ impl<T: Payload> ChanDyn for Chan<T> {
                 self.kept = None;
                 ev(&format!("iwo{c}:{first}"));
                 let (_, mut v) = self.fresh(1);
-                if T::KIND != Kind::B {
+                if T::KIND.lowers() {
                     payload::expect_slab(c, first);
                 }
                 let w = self.writer();
@@ -702,6 +706,10 @@ impl<T: Payload> Drop for Chan<T> {
 fn mk_chan(c: usize, d: Decl) -> Box<dyn ChanDyn> {
     match d.kind {
         Kind::B => Box::new(Chan::<u8>::new(c, d)),
+        Kind::H => Box::new(Chan::<u16>::new(c, d)),
+        Kind::W => Box::new(Chan::<u32>::new(c, d)),
+        Kind::D => Box::new(Chan::<u64>::new(c, d)),
+        Kind::T => Box::new(Chan::<(u32, u32)>::new(c, d)),
         Kind::R => Box::new(Chan::<RItem>::new(c, d)),
         Kind::S => Box::new(Chan::<SItem>::new(c, d)),
     }
